@@ -201,79 +201,11 @@ func runC19(c *Ctx) {
 	cfg := p.Cfg.Name
 	pk := p.Pkgs[core.PkgProto]
 
-	// ---- C19.symm
-	rule := "C19.symm"
-	c.R.Rule(rule, "E10 swap symmetry: the body of ColumnType.Conflicts is canonicalised (commutative operators and independent assignments sorted, the recursive call treated as symmetric by induction on the strictly shorter element strings, the two bases identified after the dominating `cBase != bBase -> return true`) and must be equal to itself under the substitution receiver<->argument; reflexivity: `c == b -> return false` is the first statement")
-	func() {
-		fd := funcDecl(pk, "ColumnType", "Conflicts")
-		if !c.must(p, "ColumnType.Conflicts declaration", fd != nil && fd.Body != nil) {
-			return
-		}
-		recv := fd.Recv.List[0].Names[0].Name
-		arg := fd.Type.Params.List[0].Names[0].Name
-		// base variables: X := recv.Base(), Y := arg.Base()
-		var rb, ab string
-		ast.Inspect(fd.Body, func(n ast.Node) bool {
-			as, ok := n.(*ast.AssignStmt)
-			if !ok || len(as.Lhs) != 1 || len(as.Rhs) != 1 {
-				return true
-			}
-			call, ok := as.Rhs[0].(*ast.CallExpr)
-			if !ok {
-				return true
-			}
-			sel, ok := call.Fun.(*ast.SelectorExpr)
-			if !ok || sel.Sel.Name != "Base" {
-				return true
-			}
-			id, ok := sel.X.(*ast.Ident)
-			lhs, ok2 := as.Lhs[0].(*ast.Ident)
-			if ok && ok2 {
-				if id.Name == recv {
-					rb = lhs.Name
-				} else if id.Name == arg {
-					ab = lhs.Name
-				}
-			}
-			return true
-		})
-		key := "proto.(ColumnType).Conflicts"
-		pos := p.Pos(fd.Pos())
-		// reflexive
-		refl := false
-		if len(fd.Body.List) > 0 {
-			if ifs, ok := fd.Body.List[0].(*ast.IfStmt); ok {
-				cn := &canon{fset: p.Fset}
-				if cn.expr(ifs.Cond) == "(== "+minStr(recv, arg)+" "+maxStr(recv, arg)+")" && len(ifs.Body.List) == 1 && cn.stmt(ifs.Body.List[0]) == "return false" {
-					refl = true
-				}
-			}
-		}
-		if refl {
-			c.R.Ok(rule, key+"/reflexive", cfg, pos, "first statement: if c == b { return false }")
-		} else {
-			c.R.Bad(rule, key+"/reflexive", cfg, pos, "Conflicts does not start with `if c == b { return false }`: reflexivity is not structural")
-		}
-		orig := canonBody(p.Fset, fd.Body.List, map[string]string{}, rb, ab)
-		swap := map[string]string{recv: arg, arg: recv}
-		if rb != "" && ab != "" {
-			swap[rb], swap[ab] = ab, rb
-		}
-		swapped := canonBody(p.Fset, fd.Body.List, swap, rb, ab)
-		if strings.Contains(strings.Join(orig, ";"), "?") {
-			c.R.Unk(rule, key+"/symmetric", cfg, pos, "the body uses constructs outside the fragment the symmetry argument understands")
-			return
-		}
-		for i := range orig {
-			if i >= len(swapped) || orig[i] != swapped[i] {
-				c.R.Bad(rule, key+"/symmetric", cfg, pos, "Conflicts(a,b) and Conflicts(b,a) differ: statement "+orig[i]+" becomes "+swapped[i]+" when the operands are exchanged (a mirrored clause is missing or wrong)")
-				return
-			}
-		}
-		c.R.Ok(rule, key+"/symmetric", cfg, pos, sprintf("%d canonical statements invariant under exchange of the operands", len(orig)))
-	}()
-
+	ruleConflictsSymm(c, p, "C19.symm")
+	ruleSliceOrder(c, p, "C19.slices")
 	ruleInferTables(c, p, "C19")
+	rule := ""
+	_ = rule
 
 	// ---- C19.reflect
 	rule = "C19.reflect"
@@ -737,4 +669,136 @@ func evalInt(pk *packages.Package, e ast.Expr, x int64) (int64, bool) {
 		return x, true
 	}
 	return 0, false
+}
+
+// ruleConflictsSymm (C19.symm / C18.symm)
+func ruleConflictsSymm(c *Ctx, p *core.Program, rule string) {
+	cfg := p.Cfg.Name
+	pk := p.Pkgs[core.PkgProto]
+	c.R.Rule(rule, "E10 swap symmetry: the body of ColumnType.Conflicts is canonicalised (commutative operators and independent assignments sorted, the recursive call treated as symmetric by induction on the strictly shorter element strings, the two bases identified after the dominating `cBase != bBase -> return true`) and must be equal to itself under the substitution receiver<->argument; reflexivity: `c == b -> return false` is the first statement")
+	func() {
+		fd := funcDecl(pk, "ColumnType", "Conflicts")
+		if !c.must(p, "ColumnType.Conflicts declaration", fd != nil && fd.Body != nil) {
+			return
+		}
+		recv := fd.Recv.List[0].Names[0].Name
+		arg := fd.Type.Params.List[0].Names[0].Name
+		// base variables: X := recv.Base(), Y := arg.Base()
+		var rb, ab string
+		ast.Inspect(fd.Body, func(n ast.Node) bool {
+			as, ok := n.(*ast.AssignStmt)
+			if !ok || len(as.Lhs) != 1 || len(as.Rhs) != 1 {
+				return true
+			}
+			call, ok := as.Rhs[0].(*ast.CallExpr)
+			if !ok {
+				return true
+			}
+			sel, ok := call.Fun.(*ast.SelectorExpr)
+			if !ok || sel.Sel.Name != "Base" {
+				return true
+			}
+			id, ok := sel.X.(*ast.Ident)
+			lhs, ok2 := as.Lhs[0].(*ast.Ident)
+			if ok && ok2 {
+				if id.Name == recv {
+					rb = lhs.Name
+				} else if id.Name == arg {
+					ab = lhs.Name
+				}
+			}
+			return true
+		})
+		key := "proto.(ColumnType).Conflicts"
+		pos := p.Pos(fd.Pos())
+		// reflexive
+		refl := false
+		if len(fd.Body.List) > 0 {
+			if ifs, ok := fd.Body.List[0].(*ast.IfStmt); ok {
+				cn := &canon{fset: p.Fset}
+				if cn.expr(ifs.Cond) == "(== "+minStr(recv, arg)+" "+maxStr(recv, arg)+")" && len(ifs.Body.List) == 1 && cn.stmt(ifs.Body.List[0]) == "return false" {
+					refl = true
+				}
+			}
+		}
+		if refl {
+			c.R.Ok(rule, key+"/reflexive", cfg, pos, "first statement: if c == b { return false }")
+		} else {
+			c.R.Bad(rule, key+"/reflexive", cfg, pos, "Conflicts does not start with `if c == b { return false }`: reflexivity is not structural")
+		}
+		orig := canonBody(p.Fset, fd.Body.List, map[string]string{}, rb, ab)
+		swap := map[string]string{recv: arg, arg: recv}
+		if rb != "" && ab != "" {
+			swap[rb], swap[ab] = ab, rb
+		}
+		swapped := canonBody(p.Fset, fd.Body.List, swap, rb, ab)
+		if strings.Contains(strings.Join(orig, ";"), "?") {
+			c.R.Unk(rule, key+"/symmetric", cfg, pos, "the body uses constructs outside the fragment the symmetry argument understands")
+			return
+		}
+		for i := range orig {
+			if i >= len(swapped) || orig[i] != swapped[i] {
+				c.R.Bad(rule, key+"/symmetric", cfg, pos, "Conflicts(a,b) and Conflicts(b,a) differ: statement "+orig[i]+" becomes "+swapped[i]+" when the operands are exchanged (a mirrored clause is missing or wrong)")
+				return
+			}
+		}
+		c.R.Ok(rule, key+"/symmetric", cfg, pos, sprintf("%d canonical statements invariant under exchange of the operands", len(orig)))
+	}()
+	ruleEnumIntPairs(c, p, rule)
+}
+
+// ruleEnumIntPairs: the enum/raw-integer equivalences pair equal widths.
+func ruleEnumIntPairs(c *Ctx, p *core.Program, rule string) {
+	cfg := p.Cfg.Name
+	pk := p.Pkgs[core.PkgProto]
+	fd := funcDecl(pk, "ColumnType", "Conflicts")
+	if fd == nil || fd.Body == nil {
+		return
+	}
+	width := func(e ast.Expr, prefix string) string {
+		id, ok := e.(*ast.Ident)
+		if !ok || !strings.HasPrefix(id.Name, prefix) {
+			return ""
+		}
+		return strings.TrimPrefix(id.Name, prefix)
+	}
+	n, bad := 0, false
+	ast.Inspect(fd.Body, func(nd ast.Node) bool {
+		be, ok := nd.(*ast.BinaryExpr)
+		if !ok || be.Op != token.LAND {
+			return true
+		}
+		l, ok1 := ast.Unparen(be.X).(*ast.BinaryExpr)
+		r, ok2 := ast.Unparen(be.Y).(*ast.BinaryExpr)
+		if !ok1 || !ok2 || l.Op != token.EQL || r.Op != token.EQL {
+			return true
+		}
+		var ew, iw string
+		for _, side := range []*ast.BinaryExpr{l, r} {
+			for _, op := range []ast.Expr{side.X, side.Y} {
+				if w := width(op, "ColumnTypeEnum"); w != "" {
+					ew = w
+				}
+				if w := width(op, "ColumnTypeInt"); w != "" {
+					iw = w
+				}
+			}
+		}
+		if ew == "" || iw == "" {
+			return true
+		}
+		n++
+		if ew != iw {
+			bad = true
+			c.R.Bad(rule, "proto.(ColumnType).Conflicts/enumwidth", cfg, p.Pos(be.Pos()), sprintf("Enum%s is declared compatible with Int%s: a %s-bit enum column would be decoded into a %s-bit integer target, swallowing the bytes of the following column", ew, iw, ew, iw))
+		}
+		return true
+	})
+	if !bad {
+		if n == 0 {
+			c.R.Ok(rule, "proto.(ColumnType).Conflicts/enumwidth", cfg, p.Pos(fd.Pos()), "no enum/raw-integer equivalence clauses").Trivial = true
+		} else {
+			c.R.Ok(rule, "proto.(ColumnType).Conflicts/enumwidth", cfg, p.Pos(fd.Pos()), sprintf("%d enum/integer equivalence clauses, widths equal", n))
+		}
+	}
 }
